@@ -245,6 +245,10 @@ func c11Reference(chs *tls.ClientHelloSpec, qtp tls.TransportParameters) *tls.Cl
 			c.Extensions[i] = &tls.KeyShareExtension{KeyShares: ks}
 		case *tls.QUICTransportParametersExtension:
 			c.Extensions[i] = &tls.QUICTransportParametersExtension{TransportParameters: qtp}
+		case *tls.SNIExtension:
+			// every spec of this job leaves the server name to the dial: the reference gets a pristine
+			// extension (uTLS writes the name into the object it is given)
+			c.Extensions[i] = &tls.SNIExtension{}
 		default:
 			c.Extensions[i] = ext
 		}
@@ -370,7 +374,7 @@ func c11CheckDial(r *c11Rep, cs *c11Case, spec *quic.QUICSpec, orig tls.Transpor
 		refList[i] = p
 		refObjs[got[i].ID] = append(refObjs[got[i].ID], want[match[i]].Obj)
 	}
-	refRaw, err := specgen.ReferenceHello(c11Reference(spec.ClientHelloSpec, refList), "localhost", []string{"verif"})
+	refRaw, err := specgen.ReferenceHello(c11Reference(spec.ClientHelloSpec, refList), c11DialName(dial), []string{"verif"})
 	if err != nil {
 		r.bad("C11|harness|reference-hello|"+cls, "uTLS could not build the reference: %v", err)
 		return order
@@ -495,7 +499,7 @@ func TestVerifC11Wire(t *testing.T) {
 			orders := map[string]bool{}
 			var lastIDs []uint64
 			for dial := 1; dial <= cs.Dials; dial++ {
-				dc := cp.Dial(5*time.Millisecond, 20*time.Millisecond)
+				dc := cp.DialName(c11DialName(dial), 5*time.Millisecond, 20*time.Millisecond)
 				l.Count("dials", 1)
 				var w *specgen.WireHello
 				rep := &c11Rep{c: c, l: l, cls: cls, seen: map[string]bool{}, trace: func() any {
@@ -934,3 +938,13 @@ func TestVerifC11Fingerprint(t *testing.T) {
 		}
 	}
 }
+
+// c11DialName: the first dial of a case names localhost, every later one another host; the spec value is
+// the same, the server name belongs to the dial.
+func c11DialName(dial int) string {
+	if dial <= 1 {
+		return "localhost"
+	}
+	return fmt.Sprintf("c%d.test", dial%16)
+}
+
